@@ -212,6 +212,62 @@ pub fn c07_schedules(run: &mut Run) {
     for a in res {
         run.acc.merge(a, &[]);
     }
+    // The same window on the PLAIN binary: ptdelay holds a thread at the channel operations, at
+    // the drop of a channel end and at the start of the search thread (no recompilation, no hook)
+    if let Ok(plain) = bb::build_plain() {
+        let pt_ok = bb::ptdelay_tool(&plain).map(|t| t.2.is_some()).unwrap_or(false);
+        run.set("ptrace_handoff_delay_injection_available", json!(pt_ok));
+        if pt_ok {
+            let sessions = tier.pick(16usize, 128);
+            let hits = std::sync::atomic::AtomicU64::new(0);
+            let res = run_parallel(16, sessions, |sid| {
+                let mut acc = Acc::new();
+                let mut rng = Rng::stream(seed, 0xC07_4000 + sid as u64);
+                let mut opts = SpawnOpts::default();
+                opts.ptdelay = Some((*rng.pick(&[1000u32, 3000, 6000]), seed.wrapping_add(sid as u64)));
+                opts.ptset = bb::PtSet::Handoff;
+                let mut s = match Sess::start(&plain, opts, false) {
+                    Ok(s) => s,
+                    Err(e) => {
+                        acc.inconclusive.push(format!("session start failed: {}", e));
+                        return acc;
+                    }
+                };
+                for _ in 0..per_session {
+                    let h = &roots[rng.below(roots.len() as u64) as usize];
+                    s.position(h);
+                    let ms = 2 + rng.below(30) as u32;
+                    let mut g = s.go(&slice_args(h.end.stm, ms, &mut rng), WATCHDOG);
+                    if g.bestmove.is_none() {
+                        acc.inconclusive.push("ptdelay schedules: go not answered".into());
+                        break;
+                    }
+                    s.settle(&mut g, WATCHDOG);
+                    s.eng.drain(Duration::from_millis(8));
+                    acc.evaluations += 1;
+                    acc.count("ptdelay_schedule_gos", 1);
+                    acc.feature("go_on_plain_binary_under_handoff_delays");
+                    acc.distinct.insert(hash64(&format!("pt|{}|{}|{}", sid, h.end.to_fen(), g.args)));
+                    if let Some(err) = s.stderr_has_panic() {
+                        acc.violation(
+                            format!("C07|ptdelay-panic|{}", truncate(&err, 60)),
+                            format!("'panicked' on stderr of the unmodified binary when its threads are delayed at the channel operations ('{}' after '{}'): {}", g.args, truncate(&h.command(), 160), truncate(&err, 300)),
+                            json!({"kind": "session", "property": "C07", "ptdelay": "handoff", "script": [h.command(), g.args]}),
+                        );
+                        break;
+                    }
+                }
+                if let Some((h, _)) = s.eng.ptdelay_stats() {
+                    hits.fetch_add(h, std::sync::atomic::Ordering::Relaxed);
+                }
+                acc
+            });
+            for a in res {
+                run.acc.merge(a, &[]);
+            }
+            run.set("ptrace_handoff_arrivals_observed", json!(hits.load(std::sync::atomic::Ordering::Relaxed)));
+        }
+    }
     // Long go chains on cheap roots, plain binary, real clock: iterative deepening gets very deep
     // within an ordinary slice there; any 'panicked' on stderr is a refuter of "nothing panics".
     let plain = match bb::build_plain() {
@@ -403,6 +459,93 @@ pub fn c18_blackbox(run: &mut Run) {
     for a in res {
         run.acc.merge(a, &[]);
     }
+    // long searches: slices of 1.2-3 s on middle-game roots with many pieces. Only there does one
+    // iteration last hundreds of milliseconds and raise the root's best score several times, so
+    // only there can anything that depends on the time between two lines of one depth (rate
+    // limiting, batching, a line held back and printed late) put them out of order.
+    let mids: Vec<History> = vec![History { start: Pos::start(), moves: vec![], end: Pos::start() }];
+    if !mids.is_empty() {
+        let sessions = tier.pick(16usize, 64);
+        let per_session = tier.pick(4usize, 12);
+        let res = run_parallel(16, sessions, |sid| {
+            let mut acc = Acc::new();
+            let mut rng = Rng::stream(seed, 0xC18_B000 + sid as u64);
+            let mut s = match Sess::start(&plain, SpawnOpts::default(), false) {
+                Ok(s) => s,
+                Err(e) => {
+                    acc.inconclusive.push(format!("session start failed: {}", e));
+                    return acc;
+                }
+            };
+            for i in 0..per_session {
+                // a balanced middle-game root: a few random opening plies, then the engine plays
+                // both sides for 10-26 plies at 6-12 ms a move (go after go on its own board)
+                let mut h = mids[0].clone();
+                for _ in 0..(2 + rng.below(5)) {
+                    let ms = legal_moves(&h.end);
+                    if ms.is_empty() {
+                        break;
+                    }
+                    let m = *rng.pick(&ms);
+                    h.moves.push(m);
+                    h.end = apply(&h.end, m);
+                }
+                s.position(&h);
+                let mut ok = true;
+                for _ in 0..(10 + rng.below(17)) {
+                    if legal_moves(&h.end).is_empty() {
+                        break;
+                    }
+                    let g = s.go(&slice_args(h.end.stm, 6 + rng.below(7) as u32, &mut rng), WATCHDOG);
+                    match g.bestmove.as_ref().and_then(|(t, _)| parse_mv(t)) {
+                        Some(m) if legal_moves(&h.end).contains(&m) => {
+                            h.moves.push(m);
+                            h.end = apply(&h.end, m);
+                        }
+                        _ => {
+                            ok = false;
+                            break;
+                        }
+                    }
+                }
+                if !ok || legal_moves(&h.end).len() < 2 {
+                    continue;
+                }
+                if !s.isready(WATCHDOG) {
+                    break;
+                }
+                let h = &h;
+                s.position(h);
+                let ms = 1200 + rng.below(1800) as u32;
+                let mut g = s.go(&slice_args(h.end.stm, ms, &mut rng), WATCHDOG);
+                if g.bestmove.is_none() {
+                    acc.inconclusive.push("long blackbox go not answered".into());
+                    break;
+                }
+                s.settle(&mut g, WATCHDOG);
+                acc.count("long_search_gos", 1);
+                // how many lines the busiest depth printed, and how long that depth took
+                let mut per_depth: HashMap<u64, (u64, u64, u64)> = HashMap::new();
+                for l in &g.info_lines {
+                    if let Ok(inf) = parse_info(l, true) {
+                        let e = per_depth.entry(inf.depth).or_insert((0, u64::MAX, 0));
+                        e.0 += 1;
+                        e.1 = e.1.min(inf.time.unwrap_or(0));
+                        e.2 = e.2.max(inf.time.unwrap_or(0));
+                    }
+                }
+                if per_depth.values().any(|(n, t0, t1)| *n >= 3 && t1 - t0 >= 100) {
+                    acc.feature("depth_with_three_or_more_lines_spread_over_100ms");
+                    acc.distinct.insert(hash64(&format!("bblong|{}|{}|{}", h.command(), sid, i)));
+                }
+                check_transcript_lines(&g.info_lines, &h.end, &g.args, &mut acc);
+            }
+            acc
+        });
+        for a in res {
+            run.acc.merge(a, &[]);
+        }
+    }
 }
 
 // ------------------------------------------------------------------------------------------------
@@ -412,17 +555,37 @@ pub fn c18_blackbox(run: &mut Run) {
 pub fn c10_blackbox(run: &mut Run, lost: &[Pos]) {
     let tier = run.tier;
     let seed = run.seed;
-    let (plain, hooked) = match (bb::build_plain(), bb::build_hooked()) {
-        (Ok(a), Ok(b)) => (a, b),
-        (Err(e), _) | (_, Err(e)) => {
+    let plain = match bb::build_plain() {
+        Ok(a) => a,
+        Err(e) => {
+            run.acc.inconclusive.push(e);
+            return;
+        }
+    };
+    // part a on the hooked binary: several position commands per session, each record must
+    // describe that command alone
+    position_sessions(run, "C10");
+    c10_blackbox_rest(run, lost, &plain, tier, seed);
+}
+
+/// Sessions of several `position` commands on the hooked binary (the real command loop, `clear()`
+/// included); the `position_loaded` record of each command is compared with the oracle's view of
+/// that command alone. `prop` = "C10": the repetition record; "C04": the board fields and the key.
+/// Follow-up commands are related to the previous one the way GUI traffic is: the same command
+/// again, the game continued by a few moves, moves taken back (a proper prefix, down to the bare
+/// start), the last moves replaced by others, or another game from the same start.
+pub fn position_sessions(run: &mut Run, prop: &'static str) {
+    let tier = run.tier;
+    let seed = run.seed;
+    let hooked = match bb::build_hooked() {
+        Ok(a) => a,
+        Err(e) => {
             run.acc.inconclusive.push(e);
             return;
         }
     };
     let h = ZobristHasher::create_zobrist_hasher();
     let starts = crate::workload::start_positions(seed, 40).unwrap_or_default();
-    // part a on the hooked binary: several position commands per session, each record must
-    // describe that command alone
     let sessions = tier.pick(48usize, 200);
     let res = run_parallel(16, sessions, |sid| {
         let mut acc = Acc::new();
@@ -441,9 +604,38 @@ pub fn c10_blackbox(run: &mut Run, lost: &[Pos]) {
             // related games make a missing clear() visible: same start, overlapping positions
             let hist = if i > 0 && rng.chance(1, 2) {
                 let prev: &History = &hists[i - 1];
-                match rng.below(4) {
+                match rng.below(7) {
                     // the same command again
                     0 => prev.clone(),
+                    // moves taken back: a proper prefix of the previous list, down to no moves at all
+                    4 | 5 if !prev.moves.is_empty() => {
+                        let keep = if rng.chance(1, 4) { 0 } else if rng.chance(1, 2) { prev.moves.len() - 1 } else { rng.below(prev.moves.len() as u64) as usize };
+                        let mut h = History { start: prev.start.clone(), moves: vec![], end: prev.start.clone() };
+                        for m in prev.moves.iter().take(keep) {
+                            h.moves.push(*m);
+                            h.end = apply(&h.end, *m);
+                        }
+                        h
+                    }
+                    // the last one or two moves replaced by other moves (same length or longer)
+                    6 if !prev.moves.is_empty() => {
+                        let keep = prev.moves.len() - (1 + rng.below(2) as usize).min(prev.moves.len());
+                        let mut h = History { start: prev.start.clone(), moves: vec![], end: prev.start.clone() };
+                        for m in prev.moves.iter().take(keep) {
+                            h.moves.push(*m);
+                            h.end = apply(&h.end, *m);
+                        }
+                        for _ in 0..(1 + rng.below(3)) {
+                            let ms = legal_moves(&h.end);
+                            if ms.is_empty() {
+                                break;
+                            }
+                            let m = crate::workload::choose_move(&mut rng, &h.end, &ms, crate::workload::Policy::Uniform);
+                            h.moves.push(m);
+                            h.end = apply(&h.end, m);
+                        }
+                        h
+                    }
                     // the game goes on: the GUI sends the whole move list again with a few more moves
                     1 | 2 => {
                         let mut h = prev.clone();
@@ -507,6 +699,34 @@ pub fn c10_blackbox(run: &mut Run, lost: &[Pos]) {
                 acc.distinct.insert(hash64(&format!("sess|{}|{}", sid, i)));
                 acc.feature("second_or_later_position_in_session");
             }
+            if i > 0 {
+                let prev = &hists[i - 1];
+                if prev.start == hist.start && hist.moves.len() < prev.moves.len() && prev.moves[..hist.moves.len()] == hist.moves[..] {
+                    acc.feature("position_command_takes_moves_back");
+                } else if prev.start == hist.start && hist.moves.len() > prev.moves.len() && hist.moves[..prev.moves.len()] == prev.moves[..] {
+                    acc.feature("position_command_continues_the_previous_one");
+                } else if prev.start == hist.start && prev.moves == hist.moves {
+                    acc.feature("position_command_repeated");
+                }
+            }
+            if prop == "C04" {
+                match raw_board(&rec.detail) {
+                    Some((f, key)) => {
+                        let want = fields_of_pos(&hist.end);
+                        let want_key = zobrist_from_scratch(&want, &h);
+                        if f != want || key != want_key {
+                            acc.violation(
+                                format!("C04|session-board|{}", hash64(&hist.command())),
+                                format!("position command #{} of a session ('{}'): the engine does not hold the position the rules give ({}): {}", i + 1, truncate(&hist.command(), 160), hist.end.to_fen(),
+                                    if f != want { format!("board fields differ: engine {:?}", truncate(&format!("{:?}", f), 300)) } else { format!("key {} instead of {}", key, want_key) }),
+                                json!({"kind": "session", "property": "C04", "script": hists.iter().take(i + 1).map(|x| x.command()).collect::<Vec<_>>()}),
+                            );
+                        }
+                    }
+                    None => acc.inconclusive.push("position_loaded record without board fields".into()),
+                }
+                continue;
+            }
             if let Some(diff) = compare_table(hist, &table, &h) {
                 acc.violation(
                     format!("C10|session-record|{}", hash64(&hist.command())),
@@ -527,6 +747,10 @@ pub fn c10_blackbox(run: &mut Run, lost: &[Pos]) {
     for a in res {
         run.acc.merge(a, &[]);
     }
+}
+
+fn c10_blackbox_rest(run: &mut Run, lost: &[Pos], plain: &std::path::PathBuf, tier: Tier, seed: u64) {
+    let plain = plain.clone();
     // part b on the plain binary
     let n_b = tier.pick(48usize, 240);
     let res = run_parallel(8, n_b, |j| {
@@ -538,15 +762,12 @@ pub fn c10_blackbox(run: &mut Run, lost: &[Pos]) {
             Some(c) => c,
             None => return acc,
         };
-        let mut moves = Vec::new();
-        let mut p = base.clone();
-        for _ in 0..n {
-            for m in cyc {
-                moves.push(m);
-                p = apply(&p, m);
-            }
+        let (hist, pre) = super::c10::cycle_history(base, cyc, n, ((j / 6 + j) % 3) as u8, &mut rng);
+        match pre {
+            1 => acc.feature("blackbox_target_arose_from_the_last_irreversible_move"),
+            2 => acc.feature("blackbox_target_one_ply_after_the_last_irreversible_move"),
+            _ => {}
         }
-        let hist = History { start: base.clone(), moves, end: p };
         let mut s = match Sess::start(&plain, SpawnOpts::default(), false) {
             Ok(s) => s,
             Err(e) => {
